@@ -65,7 +65,7 @@ for _v in ("v5", "v7"):
             tier="quick" if _c == 2 else "thorough",
             desc="%s common view with %d records: version, timestamp, per-record projection in order, MACs None" % (_v.upper(), _c),
             bounds={"records": _c}))
-reg(["C13"], H("fixed::error_common", unwind=3, timeout=600, mem_gb=10,
+reg(["C13"], H("fixed::error_common", unwind=3, timeout=3000, mem_gb=24, tier="thorough",
     desc="Error packet converts to Err", bounds={}))
 
 for _nm, _c, _tier in (("v5_count_30", 30, "thorough"), ("v5_count_31", 31, "thorough"), ("v5_count_300", 300, "thorough"), ("v7_count_31", 31, "thorough"), ("v7_count_257", 257, "thorough")):
@@ -166,7 +166,7 @@ reg(["C02"], H("w::w_empty", unwind=5, timeout=300, mem_gb=4,
 _D10 = "ipfix::Data::parse / OptionsData::parse replaced by models exact on the harness domain (every cached field fixed-length >= 8, body <= 7 bytes => first field read fails => Err)"
 for _nm, _shape, _tier in (("1p_pad3", "1 plain specifier + 3 padding bytes", "quick"), ("2p", "2 plain specifiers", "thorough"),
                           ("e_p", "enterprise + plain specifier + 2 padding bytes", "quick"), ("p_e", "plain + enterprise specifier", "thorough")):
-    reg(["C05", "C06", "C01"], H("s10::s_ipfix_template_" + _nm, unwind=5, timeout=1500, mem_gb=12, tier=_tier,
+    reg(["C05", "C06", "C01"], H("s10::s_ipfix_template_" + _nm, unwind=4, timeout=1500, mem_gb=30, mem_est=15, tier=_tier,
         desc="ipfix::FlowSet::parse, template set shape [%s] vs symbolic one-entry cache: record as sent incl. enterprise numbers, padding, cache post-state (replace/add, other entry untouched); refused set leaves cache unchanged" % _shape,
         bounds={"shape": _shape + " (written)", "symbolic": "template id, ie ids, field lengths, enterprise numbers, padding bytes, cached entry"}))
 reg(["C05"], H("s10::s_ipfix_template_two_records_kf", unwind=5, timeout=900, mem_gb=8, expect="fail", finding="C05-multi-record-template-set",
@@ -208,45 +208,48 @@ reg(["C05"], H("p::p_ipfix_sets_after_skipped_kf", unwind=5, timeout=2400, mem_g
 
 # ---------------------------------------------------------------- serializers (C09, C10)
 for _nm, _shape, _tier in (("2f", "1 record x 2 fields", "quick"), ("1f_pad3", "1 record x 1 field + 3 padding bytes", "quick"), ("1f_1f", "2 records x 1 field + 2 padding bytes", "thorough")):
-    reg(["C09", "C01"], H("ser::ser_v9_template_" + _nm, unwind=5, loops=[(r"many0::<&\[u8\], u8", 9), (r"nfv3ser", 24)], timeout=1500, mem_gb=12, tier=_tier,
+    reg(["C09", "C01"], H("ser::ser_v9_template_" + _nm, unwind=3, loops=[(r"many0::<&\[u8\], u8", 5), (r"nfv3ser", 24)], timeout=1500, mem_gb=12, tier=_tier,
         desc="V9: to_be_bytes(header + FlowSet::parse(template flowset [%s])) == header bytes || flowset bytes incl. padding" % _shape,
         bounds={"shape": _shape + " (written)", "symbolic": "ids, field types/lengths, padding bytes, packet header"}))
-reg(["C09", "C01"], H("ser::ser_v9_options_template_1_1", unwind=5, loops=[(r"many0::<&\[u8\], u8", 9), (r"nfv3ser", 24)], timeout=1500, mem_gb=12, tier="thorough",
+reg(["C09", "C01"], H("ser::ser_v9_options_template_1_1", unwind=3, loops=[(r"many0::<&\[u8\], u8", 5), (r"nfv3ser", 24)], timeout=1500, mem_gb=12, tier="thorough",
     desc="V9: options-template flowset (1 scope + 1 option field + 2 padding) re-export == input", bounds={"shape": "written"}))
 for _l, _tier in ((2, "quick"), (3, "thorough"), (4, "thorough")):
-    reg(["C09", "C01"], H("ser::ser_v9_data_%d" % _l, unwind=5, loops=[(r"nfv3ser", 24)], timeout=2400, mem_gb=20, tier=_tier,
+    reg(["C09", "C01"], H("ser::ser_v9_data_%d" % _l, unwind=4, loops=[(r"nfv3ser", 24)], timeout=2400, mem_gb=20, tier=_tier,
         desc="V9: data flowset (one unsigned field of %d bytes, 7-byte body: %d records + %d padding) decode + re-export == input incl. padding" % (_l, 7 // _l, 7 % _l),
         bounds={"body_bytes": 7, "field_length": _l}, assumptions=[_K9]))
 reg(["C09", "C01"], H("ser::ser_v9_options_data", unwind=9, timeout=2400, mem_gb=30, tier="thorough",
     desc="V9: options-data flowset (1 scope + 1 option field, padding) re-export == input", bounds={"body_bytes": 6}))
-reg(["C09", "C01"], H("ser::ser_v9_short_length", unwind=5, timeout=900, mem_gb=8,
+reg(["C09", "C01"], H("ser::ser_v9_short_length", unwind=2, loops=[(r"nfv3ser", 24)], timeout=900, mem_gb=12,
     desc="V9: template / options-template flowset with length field 0..3 re-exports as its 4 header bytes", bounds={"length": "0..=3"}))
-reg(["C10", "C01"], H("ser::ser_ipfix_template_plain", unwind=5, loops=[(r"many0::<&\[u8\], u8", 9), (r"nfv3ser", 24)], timeout=1500, mem_gb=12,
+reg(["C10", "C01"], H("ser::ser_ipfix_template_plain", unwind=4, loops=[(r"many0::<&\[u8\], u8", 5), (r"nfv3ser", 24)], timeout=1500, mem_gb=12,
     desc="IPFIX: template set (1 record, 2 plain specifiers, 2 padding bytes) re-export == input", bounds={"shape": "written"}))
-reg(["C10", "C01"], H("ser::ser_ipfix_template_plain_1", unwind=5, loops=[(r"many0::<&\[u8\], u8", 9), (r"nfv3ser", 24)], timeout=1500, mem_gb=12, tier="thorough",
+reg(["C10", "C01"], H("ser::ser_ipfix_template_plain_1", unwind=3, loops=[(r"many0::<&\[u8\], u8", 5), (r"nfv3ser", 24)], timeout=1500, mem_gb=12, tier="thorough",
     desc="IPFIX: template set (1 record, 1 plain specifier, 3 padding bytes) re-export == input", bounds={"shape": "written"}))
-reg(["C10"], H("ser::ser_ipfix_template_enterprise_kf", unwind=5, loops=[(r"many0::<&\[u8\], u8", 9), (r"nfv3ser", 24)], timeout=1500, mem_gb=12, expect="fail", finding="C10-enterprise-bit",
+reg(["C10"], H("ser::ser_ipfix_template_enterprise_kf", unwind=4, loops=[(r"many0::<&\[u8\], u8", 5), (r"nfv3ser", 24)], timeout=1500, mem_gb=12, expect="fail", finding="C10-enterprise-bit",
     desc="finding witness: enterprise specifier re-exported without the E bit", bounds={"shape": "enterprise + plain specifier"}))
 for _l, _tier in ((2, "quick"), (4, "thorough")):
-    reg(["C10", "C01"], H("ser::ser_ipfix_data_%d" % _l, unwind=5, loops=[(r"nfv3ser", 24)], timeout=2400, mem_gb=30, tier=_tier,
+    reg(["C10", "C01"], H("ser::ser_ipfix_data_%d" % _l, unwind=4, loops=[(r"nfv3ser", 24)], timeout=2400, mem_gb=30, tier=_tier,
         desc="IPFIX: data set (one unsigned field of %d bytes, 5-byte body) decode + re-export == input incl. padding" % _l,
         bounds={"body_bytes": 5, "field_length": _l}, assumptions=[_K9]))
-reg(["C10"], H("ser::ser_ipfix_varlen_kf", unwind=9, timeout=1500, mem_gb=12, expect="fail", finding="C10-varlen-prefix",
+reg(["C10"], H("ser::ser_ipfix_varlen_kf", unwind=3, loops=[(r"nfv3ser", 24)], timeout=1500, mem_gb=12, expect="fail", finding="C10-varlen-prefix",
     desc="finding witness: variable-length prefix not re-exported", bounds={"body_bytes": 3}, assumptions=[_K9]))
 
 
 # ---------------------------------------------------------------- common view (C13)
 _SHAPE = "input structures have the shape the K/D layers are shown to produce (variant per data type; V9 one map per record, IPFIX one single-entry map per field)"
-reg(["C13", "C01"], H("cv::cv_v9_addr_ports", unwind=6, timeout=1500, mem_gb=12,
-    desc="V9 common view: 1..2 records with IPv4/IPv6 source, optional IPv4 destination and ports in symbolic field order: one flow per record in order, present fields equal, absent None",
-    bounds={"records": "1..=2", "fields": "<=4"}, assumptions=[_SHAPE]))
+for _nm, _shape, _tier in (("v4_full_2rec", "2 records: IPv4 src, ports, IPv4 dst", "quick"), ("v6_ports_swapped", "1 record: port field before IPv6 src", "quick"), ("v4_only", "1 record: IPv4 src only", "thorough")):
+    reg(["C13", "C01"], H("cv::cv_v9_" + _nm, unwind=5, loops=[(r"^memcmp", 20)], timeout=1800, mem_gb=16, tier=_tier,
+        desc="V9 common view (NetflowCommon::from(&V9)) on [%s]: one flow per record in order, present fields equal, absent None" % _shape,
+        bounds={"shape": _shape + " (written)", "symbolic": "all values"}, assumptions=[_SHAPE]))
 reg(["C13"], H("cv::cv_v9_mac", unwind=8, timeout=900, mem_gb=8, tier="thorough",
     desc="V9 common view: MAC text projected", bounds={"records": 1}, assumptions=[_SHAPE]))
 reg(["C13"], H("cv::cv_v9_protocol_times_kf", unwind=6, timeout=900, mem_gb=8, expect="fail", finding="C13-v9-protocol-times",
     desc="finding witness: V9 protocol / first-switched present but projected as None", bounds={"records": 1}, assumptions=[_SHAPE]))
-reg(["C13", "C01"], H("cv::cv_ipfix_single_field", unwind=6, timeout=1500, mem_gb=12,
-    desc="IPFIX common view, single-field templates: one flow per record in order, the field projected, others None",
-    bounds={"records": "1..=2", "field": "one of 5 projected kinds"}, assumptions=[_SHAPE]))
+for _nm, _shape, _tier in (("src4_2rec", "2 records of one IPv4 source field", "quick"), ("dst6", "1 record, IPv6 destination", "thorough"), ("port_2rec", "2 records, destination port", "thorough"),
+                          ("proto", "1 record, protocolIdentifier", "quick"), ("start", "1 record, flowStartSysUpTime", "thorough")):
+    reg(["C13", "C01"], H("cv::cv_ipfix_" + _nm, unwind=5, timeout=1800, mem_gb=16, tier=_tier,
+        desc="IPFIX common view (NetflowCommon::from(&IPFix)), single-field template [%s]: one flow per record in order, the field projected, others None" % _shape,
+        bounds={"shape": _shape + " (written)", "symbolic": "all values"}, assumptions=[_SHAPE]))
 reg(["C13"], H("cv::cv_ipfix_two_fields_kf", unwind=6, timeout=900, mem_gb=8, expect="fail", finding="C13-ipfix-flow-per-field",
     desc="finding witness: a two-field IPFIX record yields two flows", bounds={"records": 1, "fields": 2}, assumptions=[_SHAPE]))
 reg(["C13", "C01"], H("cv::cv_flowsets_concat", unwind=4, timeout=2400, mem_gb=30, tier="thorough",
